@@ -68,7 +68,7 @@ class C06(Spec):
     def gen(self, rng, tier):
         q = tier == "quick"
         L = []
-        n = 6000 if q else 150000
+        n = 6000 if q else 50000
         tries = 0
         while len(L) < n and tries < n * 20:
             tries += 1
@@ -176,6 +176,10 @@ class C06(Spec):
         vio = violations(t, v)
         hard = [x for x in vio if not x[1]]
         if o[0] in (2, 3):
+            if o[0] == 3 and self._big(t, v):
+                # the child died (allocation failure) while reading the value back: values of 16K+ elements run into the
+                # fragmentation findings (F01-2) and the untrusted-length allocation (F04-1); C01 and C04 judge those
+                return None
             cls = "encode_panics"
             if any(x[0] == "size" for x in vio) and self._f10_1(t, v):
                 cls = "semi_size_encode_panics"
